@@ -38,16 +38,16 @@ Print Assumptions C16_decision_ignores_what_follows.
    state of the connection are those of the whole stream *)
 Theorem C16_responses_do_not_depend_on_segmentation :
   forall handlers stall keep chunks buf out,
-  fold_left (feed handlers stall keep) chunks (serve handlers stall keep buf out)
-  = serve handlers stall keep (buf ++ concat chunks) out.
-Proof. exact responses_independent_of_segmentation. Qed.
+  fold_left (http_feed handlers stall keep) chunks (http_serve handlers stall keep buf out)
+  = http_serve handlers stall keep (buf ++ concat chunks) out.
+Proof. exact http_responses_independent_of_segmentation. Qed.
 Print Assumptions C16_responses_do_not_depend_on_segmentation.
 
 Theorem C16_any_two_cuts_of_a_stream_agree :
   forall handlers stall keep chunks1 chunks2, concat chunks1 = concat chunks2 ->
-  fold_left (feed handlers stall keep) chunks1 (serve handlers stall keep [] [])
-  = fold_left (feed handlers stall keep) chunks2 (serve handlers stall keep [] []).
-Proof. exact any_two_cuts_agree. Qed.
+  fold_left (http_feed handlers stall keep) chunks1 (http_serve handlers stall keep [] [])
+  = fold_left (http_feed handlers stall keep) chunks2 (http_serve handlers stall keep [] []).
+Proof. exact http_any_two_cuts_agree. Qed.
 Print Assumptions C16_any_two_cuts_of_a_stream_agree.
 
 (* exactly one response per request, in order; the connection stays iff keep-alive
@@ -55,21 +55,21 @@ Print Assumptions C16_any_two_cuts_of_a_stream_agree.
 Theorem C16_one_response_per_request_in_order :
   forall handlers stall keep req rest out len o close,
   http_decide handlers stall req = HRespond len o close -> len = Z.of_nat (length req) ->
-  serve handlers stall keep (req ++ rest) out =
-    if close || negb keep then (CClosed, out ++ [o]) else serve handlers stall keep rest (out ++ [o]).
-Proof. exact serve_request_then_rest. Qed.
+  http_serve handlers stall keep (req ++ rest) out =
+    if close || negb keep then (CClosed, out ++ [o]) else http_serve handlers stall keep rest (out ++ [o]).
+Proof. exact http_serve_request_then_rest. Qed.
 Print Assumptions C16_one_response_per_request_in_order.
 
 Theorem C16_a_stalling_path_is_never_answered :
   forall handlers stall keep req rest out len,
-  http_decide handlers stall req = HStall len -> serve handlers stall keep (req ++ rest) out = (CStalled, out).
-Proof. exact serve_stall_is_silent. Qed.
+  http_decide handlers stall req = HStall len -> http_serve handlers stall keep (req ++ rest) out = (CStalled, out).
+Proof. exact http_serve_stall_is_silent. Qed.
 Print Assumptions C16_a_stalling_path_is_never_answered.
 
 Theorem C16_malformed_input_closes_the_connection :
   forall handlers stall keep req rest out,
-  http_decide handlers stall req = HBad -> serve handlers stall keep (req ++ rest) out = (CClosed, out).
-Proof. exact serve_malformed_closes. Qed.
+  http_decide handlers stall req = HBad -> http_serve handlers stall keep (req ++ rest) out = (CClosed, out).
+Proof. exact http_serve_malformed_closes. Qed.
 Print Assumptions C16_malformed_input_closes_the_connection.
 
 (* content-length equals the body *)
@@ -140,17 +140,17 @@ Definition ex_stream := ex_req_a ++ ex_req_a ++ ex_req_close ++ ex_req_a.
 
 Example C16_example_whole_stream :
   exists r1 r404,
-    serve ex_handlers ex_stall true ex_stream [] = (CClosed, [r1; r1; r404]) /\
+    http_serve ex_handlers ex_stall true ex_stream [] = (CClosed, [r1; r1; r404]) /\
     http_decide ex_handlers ex_stall ex_req_a = HRespond 19 r1 false /\
     firstn 12 r404 = [72;84;84;80;47;49;46;49;32;52;48;52].
 Proof. eexists _, _. vm_compute. repeat split; reflexivity. Qed.
 
 Example C16_example_cuts_agree :
-  fold_left (feed ex_handlers ex_stall true) [firstn 7 ex_stream; firstn 30 (skipn 7 ex_stream); skipn 37 ex_stream]
-            (serve ex_handlers ex_stall true [] [])
-  = fold_left (feed ex_handlers ex_stall true) (map (fun b => [b]) ex_stream) (serve ex_handlers ex_stall true [] []).
+  fold_left (http_feed ex_handlers ex_stall true) [firstn 7 ex_stream; firstn 30 (skipn 7 ex_stream); skipn 37 ex_stream]
+            (http_serve ex_handlers ex_stall true [] [])
+  = fold_left (http_feed ex_handlers ex_stall true) (map (fun b => [b]) ex_stream) (http_serve ex_handlers ex_stall true [] []).
 Proof. vm_compute. reflexivity. Qed.
 
 Example C16_example_keep_alive_off :
-  exists r1, serve ex_handlers ex_stall false ex_stream [] = (CClosed, [r1]).
+  exists r1, http_serve ex_handlers ex_stall false ex_stream [] = (CClosed, [r1]).
 Proof. eexists. vm_compute. reflexivity. Qed.
